@@ -19,7 +19,7 @@ TNew == /\ Consume("New")
         /\ conn' = "none" /\ connT' = 0 /\ rStart' = -1000 /\ rCount' = 0
         /\ peer' = "open" /\ pollm' = "ready" /\ openm' = "ok" /\ clock' = 0
         /\ usedIds' = {} /\ ret' = [r \in Reqs |-> 0] /\ arrived' = [r \in Reqs |-> FALSE] /\ early' = [r \in Reqs |-> FALSE]
-        /\ xdone' = {} /\ pushed' = FALSE /\ cfg' = 0
+        /\ xdone' = {} /\ pushed' = FALSE /\ cfg' = 0 /\ cap' = N
         /\ out' = [op |-> "init"]
         /\ Done
 
@@ -46,6 +46,7 @@ TTick == Consume("Tick") /\ Tick(Ev.n) /\ Done
 (* HTTP: the exchange of request x completed: {"e": "HDone", "x": r, "res": "body"|"curlerr"|"httperr", "msgs": [...], "junk": bool} *)
 THDone == Consume("HDone") /\ ExchangeCompletes([x |-> Ev.x, res |-> Ev.res, msgs |-> Ev.msgs, junk |-> Ev.junk]) /\ Done
 
-TNext == TNew \/ TAdd \/ TRun \/ TSrv \/ TPeer \/ TPoll \/ TOpen \/ TTick \/ THDone
+TGrow == Consume("Grow") /\ Grow(Ev.n) /\ Done
+TNext == TGrow \/ TNew \/ TAdd \/ TRun \/ TSrv \/ TPeer \/ TPoll \/ TOpen \/ TTick \/ THDone
 TSpec == TInit /\ [][TNext]_<<vars, l>>
 =============================================================================
